@@ -26,21 +26,24 @@ def toPacket (o : PktOut) : Packet :=
 /-- entries within their C types and far from exhausting the address space -/
 def TableReg (t : Table) : Prop := ∀ x ∈ t, x.2.seq < 65536 ∧ x.2.payload.length + 65536 < 2 ^ 64
 
-/-- a CMP frame (first byte not 0, at least the 8 header bytes) at a non-null address of any memory -/
-theorem decode_src (t : Table) (pre b post : Bytes) (fuel : Nat) (ext : Bytes → Nat → Nat → List PktOut)
+/-- a CMP frame (first byte not 0, at least the 8 header bytes) at a non-null address of any memory.  The returned list has
+    elements `PktOut ⊕ F` (`F` = whatever representation the TECMP decoder `ext` uses for its packets): the CMP path produces
+    left summands only -/
+theorem decode_src {F : Type} (t : Table) (pre b post : Bytes) (fuel : Nat) (ext : Bytes → Nat → Nat → List F)
     (hT : C17b.TableOk t) (hR : TableReg t) (hpre : 0 < pre.length) (h8 : 8 ≤ b.length) (h0 : byteAt b 0 ≠ 0)
     (hlen : b.length < 2 ^ 31) (hmem : (pre ++ b ++ post).length < 2 ^ 63) (hf : b.length ≤ fuel) :
-    ∃ outs, Decoder_decode_obj fuel (tblSt t) (pre ++ b ++ post) pre.length b.length ext =
-        some (tblSt (decodeLL t (some b)).1, outs) ∧
+    ∃ outs : List PktOut, Decoder_decode_obj fuel (tblSt t) (pre ++ b ++ post) pre.length b.length ext =
+        some (tblSt (decodeLL t (some b)).1, outs.map Sum.inl) ∧
       outs.map toPacket = (decodeLL t (some b)).2 := by
   exact decode_frame_src t pre b post fuel ext hT hR hpre h8 h0 hlen hmem hf
 
-/-- null pointer, buffer shorter than a frame header, TECMP buffer: no state change; the TECMP decoder's result is returned as is -/
-theorem decode_other_src (s : Decoder_St) (m : Bytes) (data size fuel : Nat) (ext : Bytes → Nat → Nat → List PktOut) :
+/-- null pointer, buffer shorter than a frame header, TECMP buffer: no state change; the TECMP decoder's result is returned as is
+    (right summands only) -/
+theorem decode_other_src {F : Type} (s : Decoder_St) (m : Bytes) (data size fuel : Nat) (ext : Bytes → Nat → Nat → List F) :
     Decoder_decode_obj fuel s m 0 size ext = some (s, []) ∧
     (0 < data → size < 8 → Decoder_decode_obj fuel s m data size ext = some (s, [])) ∧
     (0 < data → 8 ≤ size → data + 1 ≤ m.length → byteAt m data = 0 →
-      Decoder_decode_obj fuel s m data size ext = some (s, ext m data size)) := by
+      Decoder_decode_obj fuel s m data size ext = some (s, (ext m data size).map Sum.inr)) := by
   refine ⟨?_, ?_, ?_⟩
   · unfold Decoder_decode_obj
     simp only [beq_self_eq_true, if_true, pure]
